@@ -798,6 +798,12 @@ func c01Scenarios(tier string) []scenario {
 	if tier == "thorough" {
 		p = 2
 	}
+	// a compressed Write that has frames on the wire when its context ends, then another Write:
+	// a message whose Write returned nil is received by the peer
+	for _, k := range []connCfg{{Client: false, Flate: true, Thr: 64}, {Client: true, Flate: true, Thr: 64, CNCT: true, SNCT: true}} {
+		prm := c05Params{Prop: "C01", Name: "WC-cancel0-huge", K: k, Closer: "cancel0", Sparse: true, Writers: [][]wop{{{Chunks: []int{140000}}}, {{Text: true, Chunks: []int{10}}}}}
+		scs = append(scs, scenario{Name: prm.Name + "/" + k.String(), Cfg: explore.Config{P: p, Horizon: 60e9}, Setup: c05Setup(prm)})
+	}
 	// a second message is written while a compressed message of more than one deflate
 	// block is being streamed (the held-back tail of the stream belongs to the open message)
 	for _, k := range []connCfg{{Client: false, Flate: true, Thr: 1}, {Client: true, Flate: true, Thr: 1, CNCT: true, SNCT: true}} {
